@@ -331,6 +331,45 @@ Section Equiv.
     intros. unfold Model.apply_seq. apply partition_independent. now rewrite flatten_singletons.
   Qed.
 
+  (* (b) checkpoint at a cut, then the tail (replayed): the same as the whole log one at a time.
+     (That the restored store IS the store at the cut is C14's theorem; here it is the value s1.) *)
+  Theorem cut_then_replay : forall rp1 rp2 so p1 p2 s,
+    match apply_batched rp1 false so s p1 with
+    | None => seq_run s (flatten p1 ++ flatten p2) = None
+    | Some (s1, o1, _) =>
+        same_result
+          (match apply_batched rp2 false so s1 p2 with
+           | None => None
+           | Some (s2, o2, e2) => Some (s2, o1 ++ o2, e2)
+           end)
+          (seq_run s (flatten p1 ++ flatten p2))
+    end.
+  Proof.
+    intros rp1 rp2 so p1 p2 s. rewrite seq_run_app.
+    pose proof (batch_equiv rp1 so p1 s) as H1. unfold same_result in *.
+    destruct (apply_batched rp1 false so s p1) as [[[s1 o1] e1]|]; destruct (seq_run s (flatten p1)) as [[sq oq]|]; try contradiction; [|reflexivity].
+    destruct H1 as [E P]. subst sq.
+    pose proof (batch_equiv rp2 so p2 s1) as H2. unfold same_result in H2.
+    destruct (apply_batched rp2 false so s1 p2) as [[[s2 o2] e2]|]; destruct (seq_run s1 (flatten p2)) as [[sq2 oq2]|]; try contradiction; [|exact I].
+    destruct H2 as [E2 P2]. split; [exact E2 | now apply Permutation_app].
+  Qed.
+
+  Theorem cut_then_replay_expanded : forall rp1 rp2 so p1 p2 s,
+      match apply_batched rp1 false so s p1 with
+      | None => seq_run s (flatten p1 ++ flatten p2) = None
+      | Some (s1, o1, _) =>
+          match apply_batched rp2 false so s1 p2, seq_run s (flatten p1 ++ flatten p2) with
+          | Some (s2, o2, _), Some (s3, o3) => s2 = s3 /\ Permutation (o1 ++ o2) o3
+          | None, None => True
+          | _, _ => False
+          end
+      end.
+  Proof.
+    intros rp1 rp2 so p1 p2 s. pose proof (cut_then_replay rp1 rp2 so p1 p2 s) as H.
+    destruct (apply_batched rp1 false so s p1) as [[[s1 o1] e1]|]; [|exact H].
+    destruct (apply_batched rp2 false so s1 p2) as [[[s2 o2] e2]|]; exact H.
+  Qed.
+
   (* ------------------------------------------------------------------ replies per request id *)
   Lemma seq_run_ids : forall l s s' o, seq_run s l = Some (s', o) -> map fst o = map rid l.
   Proof.
@@ -382,6 +421,85 @@ Section Equiv.
       try contradiction; split; intro; try discriminate; reflexivity.
   Qed.
 End Equiv.
+
+(* ------------------------------------------------------------------------------------------
+   Invariants of the batch operator itself (no hypothesis on the handlers): an idle operator is
+   in its initial state (so dupCheckMap / the reply list are non-empty only while a batch is open),
+   and a batch never collects more than maxDBBatchCmdNum replies. *)
+Section OpInv.
+  Variables (store W R : Type).
+  Variable apply_w : store -> W -> store.
+  Variable handler : req -> store -> outcome W R.
+  Variable other_exec : req -> store -> store * R.
+  Variable parse_err : req -> R.
+  Variables (err_invalid reply_nil : R).
+  Variable conflicts : req -> store -> bool.
+  Notation step := (step store W R apply_w handler other_exec parse_err err_invalid reply_nil conflicts).
+  Notation steps := (steps store W R apply_w handler other_exec parse_err err_invalid reply_nil conflicts).
+
+  Definition op_ok (st : opstate W R) : Prop :=
+    (batching st = false -> st = init_op) /\ (N.of_nat (length (pend st)) <= max_db_batch_cmd_num).
+
+  Lemma op_ok_init : op_ok init_op.
+  Proof. split; [reflexivity | simpl; unfold max_db_batch_cmd_num; lia]. Qed.
+
+  Lemma is_batchable_room : forall (st : opstate W R) q, is_batchable W R st q = true ->
+    N.of_nat (length (pend st)) < max_db_batch_cmd_num.
+  Proof.
+    intros st q H. unfold is_batchable in H.
+    destruct (bytes_eqb (rname q) del_name && (2 <? rnargs q)); [discriminate|].
+    apply andb_true_iff in H as [H _]. apply andb_true_iff in H as [_ H]. now apply N.ltb_lt.
+  Qed.
+
+  Lemma step_op_ok : forall c st s q st' s' o e, op_ok st -> step c st s q = Some (st', s', o, e) -> op_ok st'.
+  Proof.
+    intros c st s q st' s' o e [Hi Hl] H. unfold Model.step in H.
+    destruct (rkind q).
+    - destruct (rnargs q <? 2); [discriminate|].
+      destruct (c && conflicts q s); [inversion H; subst; now split|].
+      destruct (is_batchable W R st q && rvalid q) eqn:B0.
+      + apply andb_true_iff in B0 as [B _]. pose proof (is_batchable_room _ _ B) as Hroom.
+        assert (Est : exists st1, (if batching st then (st, s, @nil (N * R), @nil ev) else (begin_op W R st, s, [], [EB])) = (st1, s, [], if batching st then [] else [EB])
+                                  /\ batching st1 = true /\ pend st1 = pend st).
+        { destruct (batching st) eqn:Bt; eexists; (split; [reflexivity|]); simpl; auto. }
+        destruct Est as [st1 [E1 [Bt1 P1]]]. rewrite E1 in H.
+        destruct (handler q s) as [ws r|er ab|].
+        * rewrite Bt1 in H. simpl in H. rewrite Bt1 in H. inversion H; subst. split; simpl.
+          -- intros Hf; congruence.
+          -- rewrite P1, app_length. simpl. lia.
+        * rewrite Bt1 in H. destruct ab.
+          -- unfold abort_op in H. simpl in H. rewrite Bt1 in H. inversion H; subst. apply op_ok_init.
+          -- inversion H; subst. split; simpl; [intros Hf; congruence | rewrite P1; exact Hl].
+        * inversion H; subst. split; [intros Hf; congruence | rewrite P1; exact Hl].
+      + unfold commit_op in H. destruct (batching st) eqn:Bt.
+        * destruct (handler q (commit_ws store W apply_w s (wb st))) as [ws r|er ab|]; simpl in H.
+          -- inversion H; subst. apply op_ok_init.
+          -- destruct ab; simpl in H; inversion H; subst; apply op_ok_init.
+          -- inversion H; subst. apply op_ok_init.
+        * rewrite (Hi eq_refl) in H. simpl in H.
+          destruct (handler q s) as [ws r|er ab|]; simpl in H.
+          -- inversion H; subst. apply op_ok_init.
+          -- destruct ab; simpl in H; inversion H; subst; apply op_ok_init.
+          -- inversion H; subst. apply op_ok_init.
+    - unfold commit_op in H. destruct (batching st) eqn:Bt.
+      + destruct (other_exec q (commit_ws store W apply_w s (wb st))) as [s2 r]. inversion H; subst. apply op_ok_init.
+      + destruct (other_exec q s) as [s2 r]. inversion H; subst. split; [intros _; now apply Hi | exact Hl].
+    - inversion H; subst. now split.
+  Qed.
+
+  Theorem steps_op_ok : forall c qs st s st' s' o e, op_ok st -> steps c st s qs = Some (st', s', o, e) -> op_ok st'.
+  Proof.
+    intros c. induction qs as [|q qs IH]; intros st s st' s' o e Hok H; simpl in H.
+    - inversion H; subst. exact Hok.
+    - destruct (step c st s q) as [[[[st1 s1] o1] e1]|] eqn:E; [|discriminate].
+      destruct (steps c st1 s1 qs) as [[[[st2 s2] o2] e2]|] eqn:E2; [|discriminate].
+      inversion H; subst. eapply IH; [|exact E2]. eapply step_op_ok; eauto.
+  Qed.
+
+  Theorem steps_op_ok_init : forall c qs s st' s' o e, steps c init_op s qs = Some (st', s', o, e) ->
+    (batching st' = false -> st' = init_op) /\ N.of_nat (length (pend st')) <= max_db_batch_cmd_num.
+  Proof. intros. eapply steps_op_ok; [apply op_ok_init | eassumption]. Qed.
+End OpInv.
 
 (* ------------------------------------------------------------------------------------------
    [Hindep] from read sets and write sets: a handler's outcome depends only on the keys it reads;
